@@ -65,9 +65,9 @@ func init() {
 		Technique: "exhaustive choice-tree enumeration (E1): all slices over a 3-letter alphabet up to length 4 (and all pairs), all (index, shift) in a dense window plus boundary classes, all 0<=k<=n<=12, vector/matrix component alphabets; against map/set, big-integer and direct-formula references",
 		Assumptions: []string{"slices longer than 4 / alphabets larger than 3 letters, and vector components outside the 8-value alphabet, are not covered", "references: Go maps, math/big, direct formulas with stated relative tolerances"},
 		Phases: func(tier string) []engine.Phase {
-			maxLen := 3
+			maxLen := 4
 			if tier == "thorough" {
-				maxLen = 4
+				maxLen = 5
 			}
 			sl := slicesOver(3, maxLen)
 			strs := []string{"a", "b", ""}
